@@ -178,6 +178,32 @@ def has_at_bytes_literal(tree):
     return False
 
 
+def macro_template_names(tree):
+    """program-level names (constants, functions) written in a defmacro template OUTSIDE (unquote …)."""
+    defined = set()
+    for f in tree[1]:
+        if f[0] == "list" and len(f[1]) >= 3 and f[1][0][0] == "sym" and f[1][0][1] in ("defconstant", "defconst", "defun", "defun-inline") \
+                and f[1][1][0] == "sym":
+            defined.add(f[1][1][1])
+    out = set()
+
+    def walk(t):
+        if t[0] == "sym":
+            if t[1] in defined:
+                out.add(t[1])
+        elif t[0] == "list":
+            if t[1] and t[1][0] == ("sym", "unquote"):
+                return
+            for x in t[1]:
+                walk(x)
+            if t[2] is not None:
+                walk(t[2])
+    for f in tree[1]:
+        if f[0] == "list" and len(f[1]) == 4 and f[1][0] == ("sym", "defmacro"):
+            walk(f[1][3])
+    return out
+
+
 def classify(pid, p, entry, src_out, impl_out, proghex):
     """signature of an oracle failure (used to match known findings)."""
     d = p["dialect"]
@@ -189,6 +215,9 @@ def classify(pid, p, entry, src_out, impl_out, proghex):
         return "compile:quoted-bound-name-renamed"
     if d == "cl22" and leaked_names(p, proghex):
         return "compile:cl22-feopt-leaked-name"
+    if d in ("cl23", "cl23.1", "cl24") and any(n.encode().hex() in proghex for n in macro_template_names(p["tree"])):
+        # C10-F2: a name written in a defmacro template outside (unquote …) is emitted as a quoted atom
+        return "compile:cl23-macro-template-name-quoted"
     if d == "strict21" and optimizing(entry) and "ff0140" in proghex:
         return "compile:strict21-opt-quoted-at"
     if d in ("classic", "cl21", "cl22") and has_at_literal(p["tree"], d == "classic"):
@@ -205,17 +234,23 @@ def differential(chk, pid, progs, entries, label, model_lines=None, extra_check=
     ml = [p["rich"] + " " + " ".join(gen.hexv(a) for a in p["args"]) for p in progs]
     mo = lib.run_model("src", ml, timeout=900, per_job=20)
     results = {}
+    lines_of = {}
     for e in entries:
         il = [e + " " + p["text"].encode().hex() + " " + " ".join(gen.hexv(a) for a in p["args"]) for p in progs]
+        lines_of[e] = il
         results[e] = lib.run_impl("compile", il, timeout=(20 if chk.tier == "quick" else 120), per_job=4)
-        # a time limit hit on a busy machine is not a verdict: every such line is run again, alone,
-        # with a limit far beyond anything a healthy compile of these programs needs
-        slow = [i for i, o in enumerate(results[e]) if o.split()[:1] == ["timeout"]]
-        if slow:
-            again = lib.run_impl("compile", [il[i] for i in slow], timeout=600, per_job=1)
-            for i, o in zip(slow, again):
-                results[e][i] = o
-            chk.count(f"{label}:{e}:retried-after-timeout", len(slow))
+    # a time limit hit on a busy machine is not a verdict: every such line (of every entry, together) is run
+    # again, alone, with a limit far beyond anything a healthy compile of these programs needs
+    slow = [(e, i) for e in entries for i, o in enumerate(results[e]) if o.split()[:1] == ["timeout"]]
+    if slow:
+        again = lib.run_impl("compile", [lines_of[e][i] for e, i in slow], timeout=(60 if chk.tier == "quick" else 300), per_job=1)
+        for (e, i), o in zip(slow, again):
+            results[e][i] = o
+            if o.split()[:1] == ["timeout"]:
+                # the compiler does not finish on an accepted-looking program: C14's subject; keep the text
+                chk.cov.setdefault("compiles_that_do_not_finish", []).append(
+                    {"entry": e, "dialect": progs[i]["dialect"], "program": progs[i]["text"][:1500]})
+            chk.count(f"{label}:{e}:retried-after-timeout")
     for i, p in enumerate(progs):
         mf = mo[i].split()
         nontrivial = p["nfns"] > 0 or any(k in p["text"] for k in ("(let", "(assign", "(lambda"))
